@@ -24,6 +24,7 @@ import (
 	"google.golang.org/protobuf/proto"
 	"larking.io/larking"
 
+	"verif/internal/backend"
 	"verif/internal/mon"
 	"verif/internal/wire"
 )
@@ -43,6 +44,7 @@ type outcome struct {
 
 // env is one mux configuration plus its lazily started real-socket server.
 type env struct {
+	proxied      bool
 	hub          *hub
 	lrecv, lsend int
 	mux          *larking.Mux
@@ -58,6 +60,15 @@ func newEnv(h *hub, lrecv, lsend int) (*env, error) {
 		return nil, err
 	}
 	return &env{hub: h, lrecv: lrecv, lsend: lsend, mux: mux}, nil
+}
+
+// newProxyEnv is an env whose mux forwards to the back-end.
+func newProxyEnv(h *hub, be *backend.Backend, lrecv, lsend int) (*env, error) {
+	mux, err := newProxyMux(be, lrecv, lsend)
+	if err != nil {
+		return nil, err
+	}
+	return &env{proxied: true, hub: h, lrecv: lrecv, lsend: lsend, mux: mux}, nil
 }
 
 func (e *env) server() (*wire.Server, error) {
@@ -179,6 +190,9 @@ func httpParts(c *Case) (method, path string, hdr http.Header, body []byte) {
 		method, path = "GET", "/l/download/"+c.ID
 	case "downloadu":
 		method, path = "GET", "/l/downloadu/"+c.ID
+	}
+	if c.URLTag != "" && c.Shape == "unary" {
+		path = "/l/echop/" + c.URLTag
 	}
 	if c.Msg == "req" {
 		path = "/l/echor"
@@ -365,12 +379,19 @@ func webStatus(r *wire.Resp, text bool) (code int, msg string, ok bool, frames [
 	return -1, "", false, frames
 }
 
+// clip shortens s and makes it printable (response bodies may be binary).
 func clip(s string, n int) string {
-	s = strings.ReplaceAll(s, "\n", " ")
+	suffix := ""
 	if len(s) > n {
-		return s[:n] + "..."
+		s, suffix = s[:n], "..."
 	}
-	return s
+	b := []byte(s)
+	for i, c := range b {
+		if c < 0x20 || c > 0x7e {
+			b[i] = '.'
+		}
+	}
+	return string(b) + suffix
 }
 
 // ---------------------------------------------------------------- executors
@@ -397,7 +418,9 @@ func (e *env) execInproc(c *Case) *outcome {
 	switch c.Proto {
 	case "http":
 		method, path, hdr, body := httpParts(c)
-		if c.EOFWithData && len(body) > 0 {
+		if c.UnknownLen && len(body) > 0 {
+			req = wire.NewRequest(method, path, "", hdr, bytes.NewReader(body), -1)
+		} else if c.EOFWithData && len(body) > 0 {
 			req = wire.NewRequest(method, path, "", hdr, &wire.ScriptReader{Data: body, EOFWithData: true}, int64(len(body)))
 		} else {
 			req = wire.BodyRequest(method, path, "", hdr, body)
@@ -474,6 +497,9 @@ func (e *env) execHTTPSock(c *Case) *outcome {
 	var rd io.Reader
 	if body != nil {
 		rd = bytes.NewReader(body) // the whole request is sent first (HTTP/1 is half-duplex)
+		if c.UnknownLen {
+			rd = struct{ io.Reader }{rd} // no Content-Length: chunked / h2 without content-length
+		}
 	}
 	req, err := http.NewRequestWithContext(ctx, method, srv.URL+path, rd)
 	if err != nil {
